@@ -27,7 +27,7 @@ import aurel
 from aurel import core as _core
 from harness import aurelside as A
 from harness import ref4d, spacetimes
-from harness.common import HarnessError, PropertyFailure, Sub
+from harness.common import HarnessError, Sub
 
 PROPERTY = "C14"
 RULE = ("Hypothesis draws an exact spacetime (families W, FL, F), 1-5 "
@@ -394,8 +394,11 @@ def _names(vars_):
 
 
 def _same(a, b, strict, scale=None):
-    a = np.asarray(a)
-    b = np.asarray(b)
+    try:
+        a = np.asarray(a)
+        b = np.asarray(b)
+    except ValueError:      # ragged value
+        return False
     if a.shape != b.shape:
         return False
     if a.dtype == object or b.dtype == object:
@@ -685,9 +688,9 @@ def _brief(a):
     return dict(shape=list(a.shape))
 
 
-def compare_tables(one, fin, case, note):
+def compare_tables(one, fin, case, note, ragged=()):
     strict = case.get("mode", "strict") == "strict"
-    ko, kf = set(one.keys()), set(fin.keys())
+    ko, kf = set(one.keys()) - set(ragged), set(fin.keys()) - set(ragged)
     if ko != kf:
         note.fail("split:keys", dict(only_one_call=sorted(ko - kf)[:6],
                                      only_split=sorted(kf - ko)[:6]))
@@ -742,7 +745,6 @@ def call_args(case, k):
 
 
 def test_case(case, note):
-    strict = case.get("mode", "strict") == "strict"
     fd, rows, cols, tk = build_table(case)
     n = len(rows)
     kw = dict(case["kw"])
@@ -808,7 +810,7 @@ def test_case(case, note):
         if cur is not None and cur is not first:
             check_result(cur, E, case, cols, note, "split")
             if one is not None and one is not t_one:
-                compare_tables(one, cur, case, note)
+                compare_tables(one, cur, case, note, E["ragged"])
         elif cur is first and (names or (E["ests"] and E["scal"])):
             note.fail("returns-input-unchanged", dict(call="split"))
 
@@ -1032,9 +1034,9 @@ def generic_wide():
 def subchecks(tier):
     q = tier == "quick"
     return [
-        Sub("table", case_strategy(False), test_case, 640 if q else 5000,
+        Sub("table", case_strategy(False), test_case, 400 if q else 5000,
             generic=generic_cases(), shards=8 if q else 16, max_rounds=3),
-        Sub("wide", case_strategy(True), test_case, 48 if q else 1200,
+        Sub("wide", case_strategy(True), test_case, 40 if q else 1200,
             generic=generic_wide(), shards=8 if q else 16, max_rounds=3,
             shrink_quick=False),
     ]
